@@ -40,6 +40,11 @@ def check_options():
     if not os.path.isfile(options.args().infile):
         raise DDSMTException('input file is not a regular file')
 
+    if os.path.exists(options.args().outfile) and os.path.samefile(
+            options.args().infile,
+            options.args().outfile):
+        raise DDSMTException('output file and input file are the same file')
+
     if options.args().parser_test:
         # only parse and print
         exprs = list(nodeio.parse_smtlib(open(options.args().infile).read()))
